@@ -35,6 +35,7 @@ ABTI_waitlist_wait_and_unlock(ABTI_local **pp_local, ABTI_waitlist *p_waitlist,
         /* use state for synchronization */
         ABTD_atomic_relaxed_store_int(&thread.state, ABT_THREAD_STATE_BLOCKED);
         /* Add thread to the list. */
+        ABTI_VERIF_EVENT(50, p_waitlist, &thread, 0);
         thread.p_next = NULL;
         if (p_waitlist->p_head == NULL) {
             p_waitlist->p_head = &thread;
@@ -71,6 +72,7 @@ ABTI_waitlist_wait_and_unlock(ABTI_local **pp_local, ABTI_waitlist *p_waitlist,
 #endif
     } else {
         /* Add p_thread to the list. */
+        ABTI_VERIF_EVENT(50, p_waitlist, &p_ythread->thread, 0);
         p_ythread->thread.p_next = NULL;
         if (p_waitlist->p_head == NULL) {
             p_waitlist->p_head = &p_ythread->thread;
@@ -107,6 +109,7 @@ static inline ABT_bool ABTI_waitlist_wait_timedout_and_unlock(
     /* Add p_thread to the list.  This implementation is tricky since this
      * updates p_prev as well for removal on timeout while the other functions
      * (e.g., wait, broadcast, signal) do not update it. */
+    ABTI_VERIF_EVENT(50, p_waitlist, &thread, 1);
     thread.p_next = NULL;
     if (p_waitlist->p_head == NULL) {
         p_waitlist->p_head = &thread;
@@ -180,6 +183,7 @@ timeout:
             : ABT_FALSE;
     if (is_timedout) {
         /* This thread is still in the list. */
+        ABTI_VERIF_EVENT(51, p_waitlist, &thread, 0);
         if (p_waitlist->p_head == &thread) {
             /* thread is a head. */
             /* Note that thread->p_prev cannot be used to check whether
@@ -220,6 +224,7 @@ static inline void ABTI_waitlist_signal(ABTI_local *p_local,
     if (p_thread) {
         ABTI_thread *p_next = p_thread->p_next;
         p_thread->p_next = NULL;
+        ABTI_VERIF_EVENT(52, p_waitlist, p_thread, 0);
 
         ABTI_ythread *p_ythread = ABTI_thread_get_ythread_or_null(p_thread);
         if (p_ythread) {
@@ -252,6 +257,7 @@ static inline void ABTI_waitlist_broadcast(ABTI_local *p_local,
         do {
             ABTI_thread *p_next = p_thread->p_next;
             p_thread->p_next = NULL;
+            ABTI_VERIF_EVENT(52, p_waitlist, p_thread, 1);
 
             ABTI_ythread *p_ythread = ABTI_thread_get_ythread_or_null(p_thread);
             if (p_ythread) {
